@@ -230,3 +230,22 @@ Theorem C16_translated_refused_start_is_exit_1 :
                \/ (exists c, (if bytes_eqb arg t_ENV then env_load cores env else file_load cores (fs arg)) = Ok c /\ valid c = false)).
 Proof. exact main_exit_1. Qed.
 Print Assumptions C16_translated_refused_start_is_exit_1.
+
+(* ... and with the TRANSLATED validator plugged in (`valid_of`: gen_is_valid_config on what the loader
+   produced): the server gets as far as spawning threads exactly when the loader returns one of the documented
+   configurations (config_ok); otherwise it exits with status 1 before anything is spawned *)
+Theorem C16_translated_start_iff_documented :
+  forall argc arg cores env fs ds ap bind_ok joins_ok,
+  argc = 2%N ->
+  match (if bytes_eqb arg t_ENV then env_load cores env else file_load cores (fs arg)) with
+  | Ok c => if config_ok (to_settings c ds ap)
+            then main_spec argc arg cores env fs (valid_of ds ap) bind_ok joins_ok
+                 = (if forallb bind_ok (range_n 0%N (Z.to_N (lc_workers c))) then
+                      if forallb joins_ok (threads_of c) then Err (ExitWith 0%N (threads_of c)) else Panic site_gen
+                    else Panic site_gen)
+            else main_spec argc arg cores env fs (valid_of ds ap) bind_ok joins_ok = Err (ExitWith 1%N [])
+  | Err _ => main_spec argc arg cores env fs (valid_of ds ap) bind_ok joins_ok = Err (ExitWith 1%N [])
+  | Panic p => main_spec argc arg cores env fs (valid_of ds ap) bind_ok joins_ok = Panic p
+  end.
+Proof. exact main_runs_iff_documented. Qed.
+Print Assumptions C16_translated_start_iff_documented.
